@@ -18,7 +18,15 @@ UNSTABLE = ("F5", "F4", "F3", "F1k0")
 
 
 def _spec_params(fam: str, r) -> dict:  # noqa: ANN001
-    tau = lambda: r.choice([0.05, 0.1, 0.5, 1.0, 2.0, 5.0, 20.0, 50.0, 100.0, 200.0, 400.0])  # noqa: E731
+    stiff = r.random() < 0.25  # widely separated time scales: the solver needs many internal steps per poll
+    flip = [0]
+
+    def tau() -> float:
+        if stiff:
+            flip[0] += 1
+            return r.choice([0.05, 0.1]) if flip[0] % 2 else r.choice([200.0, 400.0])
+        return r.choice([0.05, 0.1, 0.5, 1.0, 2.0, 5.0, 20.0, 50.0, 100.0, 200.0, 400.0])
+
     if fam == "F1":
         k = 1.0 / tau()
         return {"c": k * r.choice([0.5, 1.0, 2.0, 4.0]), "k": k}
@@ -227,7 +235,7 @@ class Exec:
 class SteadyMachine(Machine):
     name = "steady"
     properties = ("C15",)
-    runs = {"quick": 4000, "thorough": 200000}
+    runs = {"quick": 6000, "thorough": 200000}
     run_timeout = 300.0
     rule = (
         "one run = one seeded family (stable F1/F2/F6 with relaxation times swept over 0.05..400, or F5/F4(k>0)/F3 without steady "
